@@ -35,10 +35,17 @@ def plan(tier):
     return [('seeded', 10000 if tier == 'quick' else 150000),
             ('big', 120 if tier == 'quick' else 4000),
             ('pair', 600 if tier == 'quick' else 20000),
-            ('pong_fault', 800 if tier == 'quick' else 30000)]
+            ('pong_fault', 800 if tier == 'quick' else 30000),
+            ('windows', 1500 if tier == 'quick' else 40000)]
 
 
 def make_case(family, i, rng, tier):
+    if family == 'windows':
+        # compressed traffic under every negotiated (server window, client
+        # window, context take-over) combination, with repeats further back
+        # than the smaller window: scenario and delivery oracle of C06
+        from . import C06, _delegate
+        return _delegate.make(C06, 'seeded', rng, tier, 'windows')
     if family == 'pair':
         a = make_case('seeded', i, rng, tier)
         b = make_case('seeded', i, rng, tier)
@@ -197,6 +204,12 @@ def build(case):
 
 
 def execute(case):
+    if case.get('via'):
+        from . import _delegate
+        return _delegate.run(case, 'C01', (
+            'wrong_content', 'not_delivered', 'no_ready',
+            'payload_changed_after_delivery', 'binary_not_bytes', 'hang',
+            'escaped'))
     if 'pair' in case:
         return _execute_pair(case)
     res = Result()
